@@ -1,6 +1,7 @@
 """
 C06 - all ranks issue matching collectives; no layout change can deadlock; same route on every rank.
-Proof: Props/C06.v (Collectives.v, TraceCheck.v, Routes.v).
+Proof: Props/C06.v (Collectives.v, TraceCheck.v, Routes.v, RoutesGeneral.v: route table independent of the set
+iteration order for every number of layouts).
 Tie: the simulated MPI records every collective call (operation, communicator, root, count, datatype)
 of real runs of: layout-handler / swapper construction and transposes, Grid min/max/figure gathers,
 diagnostic reduction, save set-up, the plot-thread set-up (rank owning empty blocks).  Each scenario
@@ -328,18 +329,38 @@ def run():
     graphs = []
     pool = ['flux_surface', 'v_parallel', 'poloidal', 'mode_solve', 'v_parallel_2d', 'v_parallel_1d', 'a', 'B', 'zeta', 'Alpha', 'm', 'x9', 'x10']
     for _ in range(ngraphs):
-        n = rng.randint(2, 6)
+        n = rng.randint(2, 8)
         names = rng.sample(pool, n)
         pairs = [[a, b] for b in range(n) for a in range(b)]
-        # connected-ish: spanning tree plus random extra edges
-        edges = []
-        for b in range(1, n):
-            edges.append(sorted([rng.randrange(b), b]))
-        for pr in pairs:
-            if pr not in edges and rng.random() < 0.3:
-                edges.append(pr)
-        if rng.random() < 0.1 and edges:
-            edges.pop(rng.randrange(len(edges)))
+        if n >= 4 and rng.random() < 0.25:
+            # graphs with many shortest routes of equal length (ties of min and of the route comparison), relabelled at random
+            kind = rng.choice(['cycle', 'bipartite', 'ladder', 'complete', 'cube'])
+            if kind == 'cycle':
+                raw = [(i, (i + 1) % n) for i in range(n)]
+            elif kind == 'bipartite':
+                k = rng.randint(1, n - 1)
+                raw = [(i, j) for i in range(k) for j in range(k, n)]
+            elif kind == 'ladder':
+                h = n // 2
+                raw = [(i, i + 1) for i in range(h - 1)] + [(h + i, h + i + 1) for i in range(h - 1)] + [(i, h + i) for i in range(h)]
+            elif kind == 'complete':
+                raw = [(a, b) for a, b in pairs]
+            else:
+                raw = [(a, a ^ (1 << k)) for a in range(n) for k in range(3) if a < a ^ (1 << k) < n]
+            lab = list(range(n))
+            rng.shuffle(lab)
+            edges = sorted({tuple(sorted((lab[a], lab[b]))) for a, b in raw})
+            edges = [list(e) for e in edges]
+        else:
+            # connected-ish: spanning tree plus random extra edges
+            edges = []
+            for b in range(1, n):
+                edges.append(sorted([rng.randrange(b), b]))
+            for pr in pairs:
+                if pr not in edges and rng.random() < 0.3:
+                    edges.append(pr)
+            if rng.random() < 0.1 and edges:
+                edges.pop(rng.randrange(len(edges)))
         graphs.append((names, edges))
     seeds = [0, 1, 2, 3] if quick else list(range(0, 64))
     wd = tempfile.mkdtemp(dir='/var/tmp', prefix='pgv_c06r_')
@@ -389,7 +410,8 @@ def run():
     sweep5 = None
     if not quick:
         # order independence for every graph on 5 layouts: the Coq function order_independent_slice run by the extracted code,
-        # 16 slices in parallel; by RoutesSweep.slices_cover all slices true => order_independent_upto 5 = true
+        # 16 slices in parallel; by RoutesSweep.slices_cover all slices true => order_independent_upto 5 = true.
+        # Since RoutesGeneral.order_independent_upto_all proves this for every n, the sweep is a cross-check of the extraction only.
         from concurrent.futures import ThreadPoolExecutor
         with ThreadPoolExecutor(16) as ex:
             outs = list(ex.map(lambda k: core.model(['routesweep 5 %d 16' % k], 3000)[0], range(16)))
@@ -404,10 +426,13 @@ def run():
                         'eager/rendezvous limits are outside the model)']
     return chk.finish(proof,
                       rule='scenarios x arrival orders: every priority order for <= 3 ranks plus seeded random scheduling; %d random layout graphs '
-                           '(2-6 layouts) x %d PYTHONHASHSEEDs; non-trivial = more than one rank / more than two layouts' % (ngraphs, len(seeds)),
+                           '(2-8 layouts, a quarter of them tie-rich: cycles, complete bipartite, ladders, complete, cube) x %d PYTHONHASHSEEDs; non-trivial = more than one rank / more than two layouts' % (ngraphs, len(seeds)),
                       extra={'scenarios': len(scen), 'hash_seeds': seeds, 'graphs': ngraphs, 'route_sweep_5_layouts_all_orders': sweep5},
-                      uncovered=['order independence of the route search is a theorem for <= 4 layouts (finite sweep by vm_compute); for 5-6 layouts it is '
-                                 'tested against the model and across hash seeds', 'behaviour of a real MPI runtime'])
+                      uncovered=['order independence of the route search is now a theorem for EVERY number of layouts (c06_routes_order_independent: any symmetric '
+                                 'connection table, any injective name ranking, any two iteration orders); what remains tested, not proved, is that '
+                                 'Routes.route_table is _makeConnectionMap (checked here on 2-8 layouts against the implementation under several hash seeds) '
+                                 'and that CPython iterates a set in an order that removals do not change (the model filters one fixed order)',
+                                 'behaviour of a real MPI runtime'])
 
 
 def _prod(l):
